@@ -52,7 +52,7 @@ FUEL = 8
 # classes the description language cannot cover: only the differential runs apply (labelled in the evidence)
 OPAQUE_EXPECTED = {'GNNClassifier'}
 # estimator classes defined in compiled (.pyx) modules: no Python ast; differential runs only
-COMPILED_CLASSES = {'Paris', 'Betweenness'}
+COMPILED_CLASSES = set()      # (Paris and Betweenness are recovered from their .pyx by the translator)
 SKIP_CLASSES = {'EigSolver', 'SVDSolver', 'RankClassifier'}
 THREADS_QUICK = [1, 2, 4, 16]
 THREADS_THOROUGH = [1, 2, 3, 4, 8, 16]
